@@ -60,6 +60,27 @@ def apply_edits(root, edits):
             f.write(s)
 
 
+def seeded_variants(prop):
+    """Seeded changes kept under /verif/seeded/<id>/ (patch.diff + meta.json)
+    as break variants: the property's check must report them."""
+    out = []
+    root = os.path.join(VERIF, 'seeded')
+    if not os.path.isdir(root):
+        return out
+    for sid in sorted(os.listdir(root)):
+        meta_p = os.path.join(root, sid, 'meta.json')
+        patch_p = os.path.join(root, sid, 'patch.diff')
+        if not (os.path.exists(meta_p) and os.path.exists(patch_p)):
+            continue
+        with open(meta_p) as fh:
+            meta = json.load(fh)
+        if meta.get('property') != prop or not meta.get('confirmed'):
+            continue
+        out.append(dict(id='seed:' + sid, prop=prop, rule=None, kind='break',
+                        edits=[], patch=patch_p, function=None))
+    return out
+
+
 def run_variant(args):
     v, repo_root = args
     warnings.simplefilter('ignore')
@@ -76,6 +97,13 @@ def run_variant(args):
         _copy_tree(repo_root, tmp)
         try:
             apply_edits(tmp, v['edits'])
+            if v.get('patch'):
+                import subprocess
+                pr = subprocess.run(['patch', '-p1', '-s', '-i', v['patch']],
+                                    cwd=tmp, capture_output=True, text=True)
+                if pr.returncode != 0:
+                    raise RuntimeError('seeded patch does not apply: %s'
+                                       % (pr.stdout + pr.stderr)[:120])
         except RuntimeError as ex:
             res['detail'] = 'STALE VARIANT: %s' % ex
             res['stale'] = True
@@ -95,7 +123,7 @@ def run_variant(args):
             res['ok'] = False
             return res
         if v['kind'] == 'break':
-            hits = [f for f in findings if f.rule == v['rule']
+            hits = [f for f in findings if (v['rule'] is None or f.rule == v['rule'])
                     and (not v.get('function') or f.func == v['function'])]
             res['ok'] = bool(hits)
             res['detail'] = (hits[0].message[:150] if hits else
@@ -124,7 +152,7 @@ def run_variants(variants, repo_root, jobs=16):
 
 def run_for_property(prop, repo_root):
     from .variants import VARIANTS
-    vs = [v for v in VARIANTS if v['prop'] == prop]
+    vs = [v for v in VARIANTS if v['prop'] == prop] + seeded_variants(prop)
     t0 = time.time()
     results = run_variants(vs, repo_root)
     lines = []
